@@ -303,10 +303,13 @@ def _parse_body(name, header, lines):
 class Bodies:
     """name -> Body, parsed on first access."""
     def __init__(self, text):
-        self.raw = {}; self.cache = {}
+        self.raw = {}; self.cache = {}; self.simple = {}
         lines = text.split('\n'); i = 0; n = len(lines)
         while i < n:
             ln = lines[i]
+            if ln.startswith(('const ', 'static ')) and ln.endswith(';'):
+                m = re.match(r'^(?:const|static) (?:mut )?(.*?): (.*?) = const (.*);$', ln)
+                if m: self.simple[m.group(1)] = m.group(3)
             if ln.startswith(('fn ', 'const ', 'static ')) and ln.endswith('{'):
                 hm = re.match(r'^fn (.*?)\((_1: .*|)\) -> (.*) \{$', ln)
                 if hm: name = hm.group(1)
